@@ -103,6 +103,17 @@ def run_case(ctx, n):
         ctx.count('obs.statements_on_shared_connection' if vi else 'obs.first_statements')
 
 
+PRINT_FILTERS = [
+    ('year >= 2020', lambda x: x.date.year >= 2020),
+    ('year = 2020 AND month <= 6', lambda x: x.date.year == 2020 and x.date.month <= 6),
+    ('type = "transaction"', lambda x: type(x).__name__ == 'Transaction'),
+    ('type != "transaction"', lambda x: type(x).__name__ != 'Transaction'),
+    ('NOT (year = 2019)', lambda x: x.date.year != 2019),
+    ('flag = "*"', lambda x: type(x).__name__ == 'Transaction' and x.flag == '*'),
+    ('type = "transaction" AND NOT has_account("Broker")', lambda x: type(x).__name__ == 'Transaction' and not any('broker' in p.account.lower() for p in x.postings)),
+]
+
+
 def check_clauses(ctx, rng, n, vi, led, conn, entries, options, txns, d, e, use_open, close_kind, clear):
     from beancount.core import data, interpolate
     from beancount.core.compare import hash_entry
@@ -132,6 +143,19 @@ def check_clauses(ctx, rng, n, vi, led, conn, entries, options, txns, d, e, use_
     ctx.count('obs.original_transactions_kept', len(inside))
     if len(ctx.samples) < 3 and cut and inside:
         ctx.sample({'statement': text, 'transactions': len(txns), 'kept': len(inside), 'rows': len(rows)})
+    # 0. the reference period view (bqverif/period.py: summarize.open_opt, close_opt, clear_opt in this order): the statement
+    #    presents exactly its postings -- original and synthesized -- in order
+    from .. import period
+    view = period.reference_view(entries, options, open_, close, clear)
+    ref_rows = period.posting_rows(view)
+    ctx.count('obs.reference_view_comparisons')
+    ctx.count('obs.reference_view_synthesized_postings', max(0, len(ref_rows) - sum(len(t.postings) for t in inside)))
+    if [(r[4], r[5], r[2], r[3]) for r in rows] != ref_rows:
+        got = [(r[4], r[5], r[2], r[3]) for r in rows]
+        k = next(i for i, (a, b) in enumerate(zip(got + [None], ref_rows + [None])) if a != b)
+        ctx.violation('c13.rows_vs_period_view', f'{text}: row {k} is {show(got[k]) if k < len(got) else None}; the period view (OPEN, then CLOSE, then CLEAR applied to the ledger) '
+                      f'has {show(ref_rows[k]) if k < len(ref_rows) else None} ({len(got)} rows vs {len(ref_rows)})', case)
+        return False
     # 1. original transactions: exactly those inside [d, e), unchanged and in order
     seen_entries = []
     for r in rows:
@@ -272,6 +296,28 @@ def check_clauses(ctx, rng, n, vi, led, conn, entries, options, txns, d, e, use_
     ptx = [(t.date, t.narration, tuple(p.account for p in t.postings)) for t in pentries if isinstance(t, data.Transaction) and t.postings]
     stx = [(t.date, t.narration, tuple(p.account for p in t.postings)) for t in seen_entries]
     ctx.count('obs.print_route')
+    # PRINT with a filter expression besides the period clauses: the directives of the period view that satisfy it
+    fexpr, pred = rng.choice(PRINT_FILTERS)
+    ptext = f'PRINT FROM {fexpr} {clauses}'
+    out2 = io.StringIO()
+    try:
+        query_execute.execute_print(compiler.compile(conn, conn.parse(ptext)), out2)
+    except Exception as exc:  # noqa: BLE001
+        ctx.violation('c13.print_rejected', f'{ptext}: {exc!r}', case)
+        return False
+    from .c14 import reparse
+    p2, perr2, _ = reparse(out2.getvalue(), led.text)
+    p2 = sorted(p2, key=lambda x: x.meta['lineno'])
+    sig = lambda x: (type(x).__name__, x.date, getattr(x, 'narration', getattr(x, 'account', None)),                       # noqa: E731
+                     tuple((p.account, p.units) for p in x.postings) if isinstance(x, data.Transaction) else None)
+    exp2 = [sig(x) for x in view if pred(x)]
+    ctx.count('obs.print_with_filter_and_period')
+    if perr2 or [sig(x) for x in p2] != exp2:
+        got2 = [sig(x) for x in p2]
+        k = next((i for i, (a, b) in enumerate(zip(got2 + [None], exp2 + [None])) if a != b), 0)
+        ctx.violation('c13.print_filter_and_period', f'{ptext}: printed directive {k} is {got2[k] if k < len(got2) else None}; the period view filtered by the expression has '
+                      f'{exp2[k] if k < len(exp2) else None} ({len(got2)} printed, {len(exp2)} expected, parse errors {len(perr2)})', dict(case, statement=ptext))
+        return False
     if ptx != stx:
         ctx.violation('c13.print_route_differs', f'PRINT FROM {clauses}: {len(ptx)} transactions printed, the SELECT route saw {len(stx)}', case)
         return False
@@ -434,7 +480,7 @@ def finalize(merged):
     for k in ('obs.original_transactions_cut', 'obs.original_transactions_kept', 'obs.balance_sheet_accounts_compared',
               'obs.income_statement_accounts_compared', 'obs.filter_relations', 'obs.print_route', 'obs.balances_route', 'obs.journal_route',
               'obs.close_before_open_rejected', 'obs.digest_comparisons', 'obs.statements_on_shared_connection', 'obs.subselect_clause_relations',
-              'obs.named_query_sessions', 'obs.named_query_lines.run', 'obs.named_query_lines.typed', 'obs.named_query_default_close_applied'):
+              'obs.named_query_sessions', 'obs.reference_view_comparisons', 'obs.print_with_filter_and_period', 'obs.named_query_lines.run', 'obs.named_query_lines.typed', 'obs.named_query_default_close_applied'):
         if c.get(k, 0) == 0:
             reasons.append(f'{k} == 0')
     return reasons
